@@ -6,15 +6,56 @@ spec: {"cwd": dir, "cases": [{"id":..., "files": {...}, "root": "root.yaml", "sr
                             (C, MATLAB, combined / Python, JavaScript, info),
        "shared_out": dir  - every closure is compiled into this ONE directory (all sources are written first, so every
                             definition file is older than whatever an earlier compilation left there); the outputs are
-                            copied to the case's own directory afterwards}"""
+                            copied to the case's own directory afterwards,
+       "clock_shift_days": n - this process believes it runs n days (and an odd number of seconds) later: the wall clock is an
+                            input like the working directory, the outputs must not depend on it}"""
 import json
 import os
 import shutil
 import sys
 
 
+def _shift_clock(days: int):
+    """before anything of the package is imported: time.time / localtime / gmtime / strftime / ctime and datetime's today() / now()"""
+    import datetime as _dt
+    import time as _t
+
+    delta = days * 86400 + 3723
+    real = {k: getattr(_t, k) for k in ("time", "time_ns", "localtime", "gmtime", "strftime", "ctime", "asctime")}
+    _t.time = lambda: real["time"]() + delta
+    _t.time_ns = lambda: real["time_ns"]() + delta * 10 ** 9
+    _t.localtime = lambda secs=None: real["localtime"](_t.time() if secs is None else secs)
+    _t.gmtime = lambda secs=None: real["gmtime"](_t.time() if secs is None else secs)
+    _t.strftime = lambda fmt, t=None: real["strftime"](fmt, _t.localtime() if t is None else t)
+    _t.ctime = lambda secs=None: real["ctime"](_t.time() if secs is None else secs)
+    _t.asctime = lambda t=None: real["asctime"](_t.localtime() if t is None else t)
+
+    class _Date(_dt.date):
+        @classmethod
+        def today(cls):
+            return cls.fromtimestamp(_t.time())
+
+    class _DateTime(_dt.datetime):
+        @classmethod
+        def now(cls, tz=None):
+            return cls.fromtimestamp(_t.time(), tz)
+
+        @classmethod
+        def today(cls):
+            return cls.fromtimestamp(_t.time())
+
+        @classmethod
+        def utcnow(cls):
+            return cls.utcfromtimestamp(_t.time())
+
+    _dt.date = _Date
+    _dt.datetime = _DateTime
+
+
 def main():
     spec = json.load(open(sys.argv[1]))
+    if spec.get("clock_shift_days"):
+        _shift_clock(int(spec["clock_shift_days"]))
     os.makedirs(spec["cwd"], exist_ok=True)
     os.chdir(spec["cwd"])
     from vf import defx, valx
